@@ -896,3 +896,5 @@ RULE += (' Added: HistToGraph with make_value given as a Variable over histogram
          '(data, context) pairs, beside such a histogram with histogram.to_graph False.')
 RULE += (' Added: scalars whose context.group is a label, a number, a list of names or a dict among '
          'the unselected values of MapGroup(map_scalars=False).')
+
+RULE += (' Round 10: Not(...) selectors for MapBins / IterateBins / RunIf; deep copies of the selective elements; 4- and 5-dimensional histograms with list-valued bins.')
